@@ -13,7 +13,7 @@ import (
 // "mid-write" first puts half of the pending bytes on disk.
 
 // VerifCrashPoints lists the crash points in the order they are reached.
-var VerifCrashPoints = []string{"opened", "mid-write", "written", "synced"}
+var VerifCrashPoints = []string{"opened", "mid-write", "written", "synced", "closed", "renamed"}
 
 func verifCrash(name string, f *os.File, data []byte) {
 	if os.Getenv("VERIF_CRASH_AT") != name {
